@@ -9,7 +9,7 @@ import (
 
 func vDirMax() int {
 	if vThorough() {
-		return 7
+		return 6 // (7 did not finish within the thorough budget)
 	}
 	return 5
 }
@@ -139,7 +139,7 @@ func vh_C16_server() {
 	vLoopRequests = 0
 	MaxFilelist = 2 // smaller than the batch
 	if vThorough() {
-		MaxFilelist = int64(1 + vChoice(4))
+		MaxFilelist = int64(1 + vChoice(3))
 	}
 	ents := vModelDir()
 	vTheDir = &vDirFile{dents: ents}
